@@ -5,12 +5,13 @@
      TimeCases: every verification time at a validity boundary of any certificate of the
                 configuration (nb-1, nb, nb+1, na-2, na-1, na, na+1; na-1 is the
                 valid-at-expiration instant), no name, no revocation sets
-     RevCases:  three representative times x names {none, matching, other} x 13 revocation-set
-                contents built relative to the start certificate (nil, empty, OneCRL lists it /
+     RevCases:  three representative times x (names {matching, other} without sets, no name x 15
+                non-nil revocation-set contents, one time x mismatching name x the 15 contents);
+                the 16 contents are built relative to the start certificate (nil, empty, OneCRL lists it /
                 a sibling serial / under another issuer, OneCRL blocks its (subject,key) / the
                 subject with another key, CRLSet lists it under its issuer key / another key / a
                 sibling serial, CRLSet blocks the issuer key / another key / the certificate's
-                own key)
+                own key, and three combinations where both sets are supplied and only one lists it)
    exported to verify_cases.ndjson; the catalogue to graph_catalog.ndjson.  The harness runs
    the real Verifier.Verify and Graph.WalkChains; Trace_Verifier.tla judges the results.     *)
 EXTENDS Verifier, Json
@@ -27,6 +28,7 @@ Config(x) ==
     [] x = "times-x"    -> [certs |-> Ids({"tr", "ts", "trs", "ti", "tl"}), roots |-> Ids({"tr", "ts"})]
     [] x = "times-ir"   -> [certs |-> Ids({"tr", "ti", "ti2", "tl", "tl2"}), roots |-> Ids({"tr", "ti"})]
     [] x = "times-nr"   -> [certs |-> Ids({"tr", "ti", "tl"}), roots |-> {}]
+    [] x = "times-re"   -> [certs |-> Ids({"tre", "ti", "tl", "tl2"}), roots |-> Ids({"tre"})]
     [] x = "times-eq"   -> [certs |-> Ids({"tr", "ti4", "ti", "tl"}), roots |-> Ids({"tr"})]
     [] x = "selfx"      -> [certs |-> Universe("selfx"), roots |-> Ids({"r"})]
     [] x = "cross"      -> [certs |-> Universe("cross"), roots |-> Ids({"r", "s"})]
@@ -52,6 +54,9 @@ RevOf(k, c) ==
     [] k = 11 -> [onecrl |-> NoOne, crlset |-> One(<<c.skey>>, <<>>)]
     [] k = 12 -> [onecrl |-> One(<<>>, <<>>), crlset |-> One(<<"K8">>, <<>>)]
     [] k = 13 -> [onecrl |-> NoOne, crlset |-> One(<<c.key>>, <<>>)]
+    [] k = 14 -> [onecrl |-> One(<<>>, << <<c.iss, c.serial>> >>), crlset |-> One(<<>>, <<>>)]
+    [] k = 15 -> [onecrl |-> One(<< <<c.subj, c.key>> >>, <<>>), crlset |-> One(<<"K8">>, << <<"K8", c.serial>> >>)]
+    [] k = 16 -> [onecrl |-> One(<<>>, << <<"ZZ", c.serial>> >>), crlset |-> One(<<>>, << <<c.skey, c.serial>> >>)]
 
 Case(cf, s, ing, t, name, k) ==
   [add |-> SeqOfSet(IF ing THEN cf.certs ELSE cf.certs \ {s}), roots |-> SeqOfSet(cf.roots \ (IF ing THEN {} ELSE {s})),
@@ -59,9 +64,13 @@ Case(cf, s, ing, t, name, k) ==
    onecrl |-> RevOf(k, Cat(s)).onecrl, crlset |-> RevOf(k, Cat(s)).crlset]
 
 TimeCases(cf) == {Case(cf, s, ing, t, "", 1) : s \in cf.certs, ing \in BOOLEAN, t \in Times(cf.certs)}
-RevCases(cf)  == UNION {{Case(cf, s, TRUE, t, name, k) :
-                           t \in {Cat(s).nb + 1, Cat(s).na - 1, Cat(s).na + 1},
-                           name \in {"", "a.example", "b.example"}, k \in 1..13} : s \in cf.certs}
+\* names and revocation sets are independent clauses: names x no sets, no name x every set, and
+\* one time with a mismatching name x every set (instead of the full product)
+RevCases(cf)  == UNION {
+    {Case(cf, s, TRUE, t, name, 1) : t \in {Cat(s).nb + 1, Cat(s).na - 1, Cat(s).na + 1},
+                                     name \in {"a.example", "b.example"}}
+    \cup {Case(cf, s, TRUE, t, "", k) : t \in {Cat(s).nb + 1, Cat(s).na - 1, Cat(s).na + 1}, k \in 2..16}
+    \cup {Case(cf, s, TRUE, Cat(s).nb + 1, "b.example", k) : k \in 2..16} : s \in cf.certs}
 
 AllCases == UNION {TimeCases(Config(x)) \cup RevCases(Config(x)) : x \in ConfigNames}
 CaseSeq == SeqOfSet(AllCases)
